@@ -207,6 +207,84 @@ async def b2_cases(rnd, problems):
     return n
 
 
+def command_level_cases(base, problems):
+    """the COMMANDS on top of the adapters: a persistent upload fault while a snapshot has far more chunks to send than are in flight
+    or queued must end the command with that error in bounded time (nothing may wait for ever on a queue nobody drains), and a
+    transient one within the retry budget must be masked.  The fault is injected below the adapter (shutil.copyfileobj of the local
+    backend writes a few bytes, then raises ENOSPC)."""
+    import errno
+    import shutil as _shutil
+    import threading
+    import replicat.backends.local as local_mod
+    from replicat.repository import Repository
+    from replicat.backends.local import Local
+    n = 0
+    for kind in ('persistent', 'transient'):
+        n += 1
+        root = base / f'cmd_{kind}'
+        (root / 'src').mkdir(parents=True)
+        data = lib.content(77, 4000)
+        (root / 'src' / 'f').write_bytes(data)
+        budget = {'left': 10 ** 9 if kind == 'persistent' else 0}
+        per_call = {}
+        real_copy = _shutil.copyfileobj
+
+        class FakeShutil:
+            def __getattr__(self, name):
+                return getattr(_shutil, name)
+
+            @staticmethod
+            def copyfileobj(src, dst, *a, **k):
+                key = getattr(dst, 'name', id(dst))
+                if kind == 'transient':
+                    # every object: its first two attempts fail after a partial write
+                    base_name = os.path.basename(str(key))[:200]          # (the random suffix of the temporary may itself contain '_')
+                    per_call[base_name] = per_call.get(base_name, 0) + 1
+                    if per_call[base_name] <= 2:
+                        dst.write(b'part')
+                        raise OSError(errno.ENOSPC, 'No space left on device')
+                    return real_copy(src, dst, *a, **k)
+                dst.write(b'part')
+                raise OSError(errno.ENOSPC, 'No space left on device')
+
+        outcome = {}
+
+        async def go():
+            r = Repository(Local(root / 'repo'), concurrent=2, quiet=True, cache_directory=None)
+            with lib.quiet():
+                await r.init(settings={'encryption': None, 'chunking': {'min_length': 8, 'max_length': 64}})
+                await r.unlock()
+                local_mod.shutil = FakeShutil()
+                try:
+                    await asyncio.wait_for(r.snapshot(paths=[root / 'src']), 40)
+                    outcome['result'] = 'ok'
+                except asyncio.TimeoutError:
+                    outcome['result'] = 'hang'
+                except Exception as e:
+                    import traceback
+                    outcome['result'] = f'error {type(e).__name__}'
+                    outcome['tb'] = traceback.format_exc()[-700:]
+                finally:
+                    local_mod.shutil = _shutil
+                if outcome['result'] == 'ok':
+                    await r.restore(path=root / 'out')
+            await r.close()
+
+        t = threading.Thread(target=lambda: asyncio.run(go()), daemon=True)
+        t.start()
+        t.join(70)
+        if t.is_alive() or outcome.get('result') == 'hang':
+            problems.append({'level': 'command', 'fault': kind, 'problem': 'snapshot did not end within 40 s under an upload fault (normal duration: well under a second)', 'hang': True})
+            return n, True
+        if kind == 'persistent' and not outcome.get('result', '').startswith('error'):
+            problems.append({'level': 'command', 'fault': kind, 'problem': 'a persistent upload fault did not surface', 'outcome': outcome.get('result')})
+        if kind == 'transient':
+            rp = lib.restored_path(root / 'out', str((root / 'src' / 'f').resolve()))
+            if outcome.get('result') != 'ok' or not rp.exists() or rp.read_bytes() != data:
+                problems.append({'level': 'command', 'fault': kind, 'problem': 'a transient upload fault within the retry budget was not masked', 'outcome': outcome.get('result'), 'tb': outcome.get('tb')})
+    return n, False
+
+
 def main():
     payload = lib.read_payload()
     seed = int(payload.get('seed', 0))
@@ -221,10 +299,16 @@ def main():
         cases += local_cases(base, rnd, problems)
     cases += lib.run(s3_cases(rnd, problems))
     cases += lib.run(b2_cases(rnd, problems))
+    hung = False
+    with lib.scratch('vf_c12c_') as base:
+        k, hung = command_level_cases(base, problems)
+        cases += k
     failures = [{'id': f'fault{i}', 'class': None, 'case': p, 'detail': p.get('problem')} for i, p in enumerate(problems[:15])]
     lib.emit({'status': 'ok', 'cases': cases, 'distinct': cases, 'failures': failures,
               'samples': [{'backend': 's3c', 'op': 'upload_stream', 'kind': '500', 'faults': 2, 'size': 2500}],
               'exhaustive': False, 'reproduced': bool(failures)})
+    sys.stdout.flush()
+    os._exit(0)          # a hung producer thread of a failed case must not keep the interpreter alive
 
 
 if __name__ == '__main__':
